@@ -164,13 +164,19 @@ func adaptHandler(r *goja.Runtime, h *goja.Object, mode string, onVariant func(t
 		const n = "has"
 		c.Has = func(t *goja.Object, p string) bool { note(n, "str", p); return call(n, t, str(p)).ToBoolean() }
 		if all {
-			c.HasIdx = func(t *goja.Object, p int) bool { note(n, "idx", strconv.Itoa(p)); return call(n, t, idx(p)).ToBoolean() }
+			c.HasIdx = func(t *goja.Object, p int) bool {
+				note(n, "idx", strconv.Itoa(p))
+				return call(n, t, idx(p)).ToBoolean()
+			}
 			c.HasSym = func(t *goja.Object, p *goja.Symbol) bool { note(n, "sym", ""); return call(n, t, p).ToBoolean() }
 		}
 	}
 	if has("get") {
 		const n = "get"
-		c.Get = func(t *goja.Object, p string, rc goja.Value) goja.Value { note(n, "str", p); return call(n, t, str(p), valOrUndef(rc)) }
+		c.Get = func(t *goja.Object, p string, rc goja.Value) goja.Value {
+			note(n, "str", p)
+			return call(n, t, str(p), valOrUndef(rc))
+		}
 		if all {
 			c.GetIdx = func(t *goja.Object, p int, rc goja.Value) goja.Value {
 				note(n, "idx", strconv.Itoa(p))
